@@ -6,7 +6,7 @@ acknowledgement — a resend (three times), then the give-up with its ping.
 namespace Iodine.C02L
 open Iodine Iodine.Gen Iodine.World
 
-theorem waiting_sending {P : Par} {out : List Nat} {w : W} {c0 : Client.Cli} (h : Waiting P out w c0) :
+theorem waiting_sending {P : Par} {sl sp : Nat} {out : List Nat} {w : W} {c0 : Client.Cli} (h : WaitingS P sl sp out w c0) :
     Client.isSending w.cs.c = true := by
   have hsf := sentFacts c0
   have hlen0 : out.length ≠ 0 := by have := h.ready.ho; omega
@@ -18,13 +18,13 @@ theorem waiting_sending {P : Par} {out : List Nat} {w : W} {c0 : Client.Cli} (h 
   rw [hl]
   simpa using hlen0
 
-theorem waiting_sel {P : Par} {out : List Nat} {w : W} {c0 : Client.Cli} (h : Waiting P out w c0) :
+theorem waiting_sel {P : Par} {sl sp : Nat} {out : List Nat} {w : W} {c0 : Client.Cli} (h : WaitingS P sl sp out w c0) :
     (Client.selectOf w.cs.c).to = 1000000 := by
   have hs := waiting_sending h
   have hsps : w.cs.c.sendPingSoon = 0 := by rw [h.cli]; exact (sentFacts c0).sps
   simp [Client.selectOf, hsps, hs]
 
-theorem waiting_prompt {P : Par} {out : List Nat} {w : W} {c0 : Client.Cli} (h : Waiting P out w c0) :
+theorem waiting_prompt {P : Par} {sl sp : Nat} {out : List Nat} {w : W} {c0 : Client.Cli} (h : WaitingS P sl sp out w c0) :
     promptEv w = .tickC ∧ quiet P.u w = false := by
   constructor
   · unfold promptEv
@@ -46,9 +46,9 @@ def resendState (c0 : Client.Cli) : Client.Cli :=
     outchunkresent := c0.outchunkresent + 1 }
 
 /-- a timeout with fewer than three resends behind it: the same fragment goes out again, one second later -/
-theorem stuck_resend {P : Par} (hP : P.Ok) {out : List Nat} {w : W} {c0 : Client.Cli} (h : Waiting P out w c0)
+theorem stuck_resend {P : Par} (hP : P.Ok) {sl sp : Nat} {out : List Nat} {w : W} {c0 : Client.Cli} (h : WaitingS P sl sp out w c0)
     (hr : c0.outchunkresent < 3) :
-    ∃ w', (∀ k, promptSteps P.u (k + 1) w = promptSteps P.u k w') ∧ UpStuck P out w' (resendState c0) ∧
+    ∃ w', (∀ k, promptSteps P.u (k + 1) w = promptSteps P.u k w') ∧ UpStuckS P sl sp out w' (resendState c0) ∧
       w'.tunS = w.tunS ∧ w'.tunC = w.tunC ∧
       (Server.getUser w'.srv P.u).inpacket = (Server.getUser w.srv P.u).inpacket ∧
       (Server.getUser w'.srv P.u).tunIp = (Server.getUser w.srv P.u).tunIp ∧
@@ -118,13 +118,13 @@ theorem stuck_resend {P : Par} (hP : P.Ok) {out : List Nat} {w : W} {c0 : Client
       rw [hseq]; exact h.nack
     · show (Server.getUser w.srv P.u).outpacket.seqno = cn.inpkt.seqno
       rw [hc0', hc1fr]; show _ = c.inpkt.seqno; rw [hsf.inpkt]; exact h.syncd
-    · show Aged P (Server.getUser w.srv P.u) cn.datacmc 1
+    · show Aged P (Server.getUser w.srv P.u) cn.datacmc sl
       have : cn.datacmc = (c0.datacmc + 1) % 36 := by
         rw [hc0', hc1fr]; show c.datacmc = _; rw [hsf.cmc]
         have := h.ready.stat.cmc
         split <;> omega
       rw [this]; exact h.aged
-    · show PAged P (Server.getUser w.srv P.u) cn.randSeed 1
+    · show PAged P (Server.getUser w.srv P.u) cn.randSeed sp
       have : cn.randSeed = c0.randSeed := by rw [hc0', hc1fr]; show c.randSeed = _; exact hsf.seed
       rw [this]; exact h.paged
   · rw [hc0', hres]
